@@ -26,7 +26,7 @@ def t_bad_result_pickle(rng):
 
 
 def t_bad_arg_pickle(rng):
-    return {"k": "ok", "x": 1, "arg": ["bad_pickle", rng.choice(["ZeroDivisionError", "ValueError", "SystemExit", "struct.error"])]}
+    return {"k": "ok", "x": 1, "arg": ["bad_pickle", rng.choice(["ZeroDivisionError", "ValueError", "SystemExit", "struct.error", "IndexError", "BrokenPipeError"])]}
 
 
 def t_slow_pickle(rng, d=None):
@@ -675,7 +675,17 @@ def g_resize(rng):
             ops.append({"op": "submit", "ex": "e", "task": t_ok(rng)})
             ops.append({"op": "wait", "futs": "all"})
     family = "plain"
-    if rng.random() < 0.3:
+    if rng.random() < 0.15:
+        # a worker added by a growing resize dies before anything else happens, then the pool is shrunk by one
+        family = "new_worker_dies"
+        n0 = rng.randint(1, 3)
+        kw = {"max_workers": n0, "timeout": 100}
+        ops = [{"op": "new", "ex": "e", "kind": "reusable", "kw": kw}, {"op": "submit", "ex": "e", "task": t_ok(rng)}, {"op": "wait", "futs": "all"},
+               {"op": "get_reusable", "ex": "e", "kw": dict(kw, max_workers=n0 + 1), "resize": [n0, n0 + 1]},
+               {"op": "kill", "ex": "e", "which": -1, "sig": rng.choice(["SIGKILL", "SIGTERM"])}, {"op": "sleep", "d": 0.3},
+               {"op": "get_reusable", "ex": "e", "kw": dict(kw, max_workers=n0), "resize": [n0 + 1, n0]},
+               {"op": "submit", "ex": "e", "task": t_ok(rng)}, {"op": "wait", "futs": "all"}]
+    elif rng.random() < 0.3:
         # every worker idles out first, then the pool is shrunk; the kept workers must stay (nobody asked them to leave)
         family = "expired_then_shrink"
         kw = {"max_workers": rng.randint(3, 6), "timeout": 2.5}
